@@ -12,7 +12,8 @@
    pointer the flags, IncPath, Reverse; for other in-range pairs CurrINFMatchesCurrHF = FALSE and
    reverse twice = identity.
    Pointer pairs the property says nothing about are compared with the code-shaped operators and
-   reported as VERIF-DRIFT only.  Out-of-range pointers: no panic.                               *)
+   reported as VERIF-DRIFT only.  Out-of-range pointers: no panic, and IncPath refuses
+   a hop pointer beyond the last hop.                               *)
 EXTENDS PathMetaOps, TLC, Json
 
 Trace == ndJsonDeserialize("trace.ndjson")
@@ -120,6 +121,11 @@ Tri ==
                \/ Chk(FALSE, RevKey("twice", R.r2all[ci + 1][k], want[k], s) \o
                               (IF so[k - 1] = ci THEN "" ELSE ",info-pointer-in-another-segment"))
        /\ Chk(R.restoredall = NI * N, "reverse:twice-does-not-restore-bytes:any-pointers:ninf=" \o ToString(NI))
+       \* "advancing moves to the next hop ... until the last hop": a hop pointer at or beyond the last hop is
+       \* never advanced (all 4 x (64 - N) pointer pairs beyond the path); whenever IncPath succeeds the raw
+       \* bytes carry the same pointers as the struct
+       /\ Chk(R.pastinc = 0, "incpath:advances-a-hop-pointer-beyond-the-last-hop:ninf=" \o ToString(NI))
+       /\ Chk(R.incrawdiff = 0, "incpath:raw-and-struct-pointers-differ-after-advancing:ninf=" \o ToString(NI))
        /\ Chk(R.agree = N, "reverse:raw-and-decoded-bytes-differ:ninf=" \o ToString(NI))
        /\ Chk(R.restored = N, "reverse:twice-does-not-restore-bytes:ninf=" \o ToString(NI))
        /\ Chk(R.tdr = N, "todecoded-toraw:not-identity:ninf=" \o ToString(NI))
